@@ -44,7 +44,8 @@ def module_src(i, imports, variant, comment, pkg='proj'):
     lines.append('def w%d(%s, p9: str) -> float:' % (i, ', '.join('p%d: int' % k for k in range(9))))
     lines.append('\treturn 1.5')
     if comment:
-        lines.append('# edit %d' % comment)
+        # odd numbers carry a blank at the end of the line: every second benign edit changes nothing but trailing white space
+        lines.append('# edit %d%s' % (comment // 2, ' ' if comment % 2 else ''))
     return '\n'.join(lines) + '\n'
 
 
@@ -66,6 +67,65 @@ def gen_graph(rnd):
 
 
 USER_TEMPLATES = {'literal/string.j2': "{{- emit_depends('<string>') -}}\n\"{{ value[1:-1] }}\""}
+
+
+CLOSURE_MOD = ('def outer(alpha: int, beta: int, gamma: int, label: str) -> int:\n\tdelta = alpha + 1\n\tdef inner(q: int) -> int:\n'
+               '\t\treturn q + delta - gamma - beta - alpha + len(label)\n\treturn inner(1)\n')
+
+
+def process_history(ctx: Ctx, cli, root) -> None:
+    """every run in an interpreter process of its own, each with another string-hash seed (the command line is started once per
+    build): run; edit one module; run; the untouched outputs must be what a forced run in yet another process writes"""
+    proj_dir = os.path.join(root, 'c06_proc')
+    p = cli.Project(proj_dir, output_dirs=['./out'])
+    p.edit('mcl', CLOSURE_MOD)
+    p.edit(mod(0), module_src(0, [], 0, 0))
+    hist = [('run', 'PYTHONHASHSEED=1'), ('edit', 0, 1, 0, 'now'), ('run', 'PYTHONHASHSEED=2'), ('runf', 'PYTHONHASHSEED=3')]
+    r0 = p.run(force=False, fresh_process=True, env={'PYTHONHASHSEED': '1'})
+    p.edit(mod(0), module_src(0, [], 1, 0))
+    r1 = p.run(force=False, fresh_process=True, env={'PYTHONHASHSEED': '2'})
+    a = {f: c for f, (c, _) in p.outputs().items()}
+    r2 = p.run(force=True, fresh_process=True, env={'PYTHONHASHSEED': '3'})
+    b = {f: c for f, (c, _) in p.outputs().items()}
+    ctx.evaluations += 1
+    ctx.count('process-history')
+    if r0[0] != 'ok' or r1[0] != 'ok' or r2[0] != 'ok':
+        ctx.violation('run-fails:process', 'a run in a fresh interpreter process failed', dict(history=hist, impl_result=(r0, r1, r2)))
+    elif a != b:
+        stale = sorted(f for f in b if a.get(f) != b[f])
+        ctx.violation('stale-other', 'an up-to-date output left by a non-forced run differs from what a forced run in another interpreter process writes',
+                      dict(history=hist, graph={0: []}, sources={'mcl': CLOSURE_MOD}, oracle_result={f: b[f][-300:] for f in stale}, impl_result={f: a.get(f, '')[-300:] for f in stale}))
+    shutil.rmtree(proj_dir, ignore_errors=True)
+
+
+def whitespace_history(ctx: Ctx, cli, root) -> None:
+    """run; an edit that only adds a blank at the end of a comment line (comments are copied into the output); run: the non-forced
+    run must leave what a forced run writes"""
+    proj_dir = os.path.join(root, 'c06_ws')
+    p = cli.Project(proj_dir, output_dirs=['./out'])
+    imps = {0: [], 1: [0]}
+    for i in range(2):
+        p.edit(mod(i), module_src(i, imps[i], 0, 2))
+    hist = [('edit', 0, 0, 2, 'now'), ('edit', 1, 0, 2, 'now'), ('run',)]
+    r = p.run(force=False)
+    for m in (1, 0):
+        p.edit(mod(m), module_src(m, imps[m], 0, 3))
+        hist.append(('edit', m, 0, 3, 'now'))
+        r1 = p.run(force=False)
+        a = {f: c for f, (c, _) in p.outputs().items()}
+        r2 = p.run(force=True)
+        b = {f: c for f, (c, _) in p.outputs().items()}
+        ctx.evaluations += 1
+        ctx.count('whitespace-edit')
+        if r[0] != 'ok' or r1[0] != 'ok' or r2[0] != 'ok':
+            ctx.violation('run-fails:whitespace', 'a run failed', dict(history=hist, graph=imps, impl_result=(r, r1, r2)))
+            break
+        if a != b:
+            stale = sorted(f for f in b if a.get(f) != b[f])
+            ctx.violation('stale-other', 'a non-forced run leaves an output that a forced run would write differently (edit of trailing white space only)',
+                          dict(history=hist + [('run',)], graph=imps, output_dirs=['./out'], pkg='proj', oracle_result={f: b[f][-200:] for f in stale}, impl_result={f: a.get(f, '')[-200:] for f in stale}))
+            break
+    shutil.rmtree(proj_dir, ignore_errors=True)
 
 
 def user_template_history(ctx: Ctx, cli, root) -> None:
@@ -217,6 +277,8 @@ def run(ctx: Ctx) -> None:
         traw.append(dict(graph=imps, history=hist))
         shutil.rmtree(proj_dir, ignore_errors=True)
     user_template_history(ctx, cli, root)
+    whitespace_history(ctx, cli, root)
+    process_history(ctx, cli, root)
     prelude = ('Definition st0 : state nat := {| sources := fun _ => 0; outs := fun _ => None |}.\n'
                'Definition targets (n : nat) (force : bool) (st : state nat) : list nat := filter (fun m => force || can_transpile nat (fun x => x) st m) (seq 0 n).\n'
                'Fixpoint written (n : nat) (st : state nat) (h : list (op nat)) : list (list nat) := match h with [] => [] | o :: r => '
